@@ -145,13 +145,13 @@ func (s *simscreen) Fini() {
 	s.Lock()
 	s.fini = true
 	s.back.Resize(0, 0)
+	s.physw = 0
+	s.physh = 0
+	s.front = nil
 	s.Unlock()
 	if s.quit != nil {
 		close(s.quit)
 	}
-	s.physw = 0
-	s.physh = 0
-	s.front = nil
 }
 
 func (s *simscreen) SetStyle(style Style) {
@@ -283,19 +283,27 @@ func (s *simscreen) draw() {
 }
 
 func (s *simscreen) EnableMouse(...MouseFlags) {
+	s.Lock()
 	s.mouse = true
+	s.Unlock()
 }
 
 func (s *simscreen) DisableMouse() {
+	s.Lock()
 	s.mouse = false
+	s.Unlock()
 }
 
 func (s *simscreen) EnablePaste() {
+	s.Lock()
 	s.paste = true
+	s.Unlock()
 }
 
 func (s *simscreen) DisablePaste() {
+	s.Lock()
 	s.paste = false
+	s.Unlock()
 }
 
 func (s *simscreen) EnableFocus() {
@@ -369,8 +377,10 @@ outer:
 
 		utfb := make([]byte, len(b)*4) // worst case
 		for l := 1; l < len(b); l++ {
+			s.Lock()
 			s.decoder.Reset()
 			nout, nin, _ := s.decoder.Transform(utfb, b[:l], true)
+			s.Unlock()
 
 			if nout != 0 {
 				r, _ := utf8.DecodeRune(utfb[:nout])
@@ -445,6 +455,8 @@ func (s *simscreen) UnregisterRuneFallback(r rune) {
 }
 
 func (s *simscreen) CanDisplay(r rune, checkFallbacks bool) bool {
+	s.Lock()
+	defer s.Unlock()
 
 	if enc := s.encoder; enc != nil {
 		nb := make([]byte, 6)
@@ -505,24 +517,37 @@ func (s *simscreen) StopQ() <-chan struct{} {
 }
 
 func (s *simscreen) SetTitle(title string) {
+	s.Lock()
 	s.title = title
+	s.Unlock()
 }
 
 func (s *simscreen) GetTitle() string {
-	return s.title
+	s.Lock()
+	title := s.title
+	s.Unlock()
+	return title
 }
 
 func (s *simscreen) SetClipboard(data []byte) {
+	s.Lock()
 	s.clipboard = data
+	s.Unlock()
 }
 
 func (s *simscreen) GetClipboard() {
-	if s.clipboard != nil {
-		ev := NewEventClipboard(s.clipboard)
+	s.Lock()
+	data := s.clipboard
+	s.Unlock()
+	if data != nil {
+		ev := NewEventClipboard(data)
 		s.postEvent(ev)
 	}
 }
 
 func (s *simscreen) GetClipboardData() []byte {
-	return s.clipboard
+	s.Lock()
+	data := s.clipboard
+	s.Unlock()
+	return data
 }
